@@ -93,6 +93,7 @@ type ExploreConfig struct {
 	SaveQueriesDir string
 	Verbose    bool
 	Params     map[string]int
+	ZeroStubs  []string
 }
 
 // Result aggregates an exploration.
@@ -347,6 +348,10 @@ func (p *Program) newInterpreter(ec ExploreConfig, w int) (*interpreter, error) 
 		}
 	}
 	i.params = ec.Params
+	i.zeroStubs = map[string]bool{}
+	for _, z := range ec.ZeroStubs {
+		i.zeroStubs[z] = true
+	}
 	// once-per-worker initialisation of immutable-table packages
 	i.path = newPathState(WorkItem{})
 	i.stubs = map[string]value{}
